@@ -247,11 +247,13 @@ def fluid_masses(fp, yk, st, fp_type):
     """masses of a particle with equivalent diameter st['de']; falls back to a nominal density when the
     library cannot produce a finite density for this state"""
     m = None
+    t0 = time.time()
     try:
         with S.quiet():
             m = np.array(fp.masses_by_diameter(st['de'], st['T'], st['P'], yk), dtype=float)
     except Exception:
         m = None
+    st['t_flash'] = time.time() - t0          # contains one flash for a mixed-phase particle
     fp.K = None
     if m is None or not np.all(np.isfinite(m)) or not np.sum(m) > 0.:
         rho = 100. if fp_type == 0 else 700.
@@ -476,6 +478,82 @@ def cmp_tuples(ra, ind, tol):
     return diffs
 
 
+def mu_p_of_return_all(table):
+    """the particle viscosity return_all handed to the library (None when the shape needs none)"""
+    for name, args, _r in table:
+        if name == 'us_ellipsoid':
+            return args[3]
+        if name in ('xfer_sphere', 'xfer_ellipsoid'):
+            return args[-3]
+    return None
+
+
+def visc_row_check(ctx, cases):
+    """defect (b): FluidParticle.viscosity reads the liquid row in the single-phase-gas branch.  The particle
+    viscosity is NOT a component of the tuple C09 compares, and for fp_type = 2 the status is forced to -1,
+    for which the library correlations ignore mu_p — so this is observed and reported, not a C09 violation."""
+    n = 0
+    first = None
+    for c in cases:
+        if c['kind'] != 'fluid' or c['descr']['fp_type'] != 2:
+            continue
+        v = c['res']['viscosity']['out']
+        mu_ra = mu_p_of_return_all(c['res']['return_all']['table'])
+        if isinstance(v, Raised) or mu_ra is None:
+            continue
+        tol = TOL['flash_fugacity']
+        if not close(v[0], mu_ra, tol):
+            n += 1
+            if first is None:
+                first = dict(particle=c['descr'], inputs=c['x'], viscosity_method=v[0], mu_p_used_by_return_all=mu_ra)
+    ctx.count('FluidParticle.viscosity() != mu_p used inside return_all (outside the C09 tuple)', n)
+    if first is not None:
+        ctx.notes.append('observed (NOT a component of the tuple C09 compares): FluidParticle.viscosity differs from the particle '
+                         'viscosity return_all hands to the library in %d mixed-phase cases; first: %r' % (n, first))
+
+
+def library_contracts(ctx, cases, r):
+    """the two library contracts the theorems assume, checked on the real library:
+    ShapeContract (particle_shape answers 1, 2 or 3) on every recorded call;
+    DirtyIgnoresMuP (us_ellipsoid / xfer_sphere / xfer_ellipsoid ignore mu_p for status = -1) by re-calling the
+    recorded dirty calls with a different particle viscosity"""
+    from tamoc import dbm
+    lib = dbm.dbm_f
+    bad_shape = []
+    bad_dirty = []
+    nshape = ndirty = 0
+    for c in cases:
+        for mth, rr in c['res'].items():
+            for name, args, resv in rr['table']:
+                if name == 'particle_shape':
+                    nshape += 1
+                    if resv not in ([1.0], [2.0], [3.0]):
+                        bad_shape.append((args, resv))
+                elif name == 'us_ellipsoid' and args[-1] == -1.0 and ndirty < 400 and all(math.isfinite(a) for a in args):
+                    ndirty += 1
+                    a2 = list(args)
+                    a2[3] = a2[3] * r.uniform(2., 50.)
+                    with S.quiet():
+                        v = _real(lib.us_ellipsoid(*a2[:6], -1))
+                    if not close(v, resv, 0.):
+                        bad_dirty.append((name, args, resv, v))
+                elif name in ('xfer_sphere', 'xfer_ellipsoid') and args[-1] == -1.0 and ndirty < 400 \
+                        and all(math.isfinite(a) for a in args):
+                    ndirty += 1
+                    nD = len(args) - 8
+                    a2 = list(args)
+                    a2[-3] = a2[-3] * r.uniform(2., 50.)
+                    with S.quiet():
+                        v = _real(getattr(lib, name)(a2[0], a2[1], a2[2], a2[3], np.array(a2[4:4 + nD]), a2[-4], a2[-3],
+                                                    int(a2[-2]), -1))
+                    if not close(v, resv, 0.):
+                        bad_dirty.append((name, args, resv, v))
+    ctx.oblige('library contract ShapeContract: particle_shape answered 1, 2 or 3 on %d recorded calls' % nshape,
+               not bad_shape, str(bad_shape[:3]))
+    ctx.oblige('library contract DirtyIgnoresMuP: %d recorded dirty us_ellipsoid/xfer_sphere/xfer_ellipsoid calls repeated '
+               'with another particle viscosity give the identical answer' % ndirty, not bad_dirty, str(bad_dirty[:3]))
+
+
 def run(ctx, lean_ok):
     r = ctx.rng
     nfl = ctx.n(130, 2500)
@@ -500,6 +578,9 @@ def run(ctx, lean_ok):
                     st['band'] = ['small', 'mid', 'large'][(i // 3) % 3]
                     st['de'] = {'small': lu(r, 50e-6, 300e-6), 'mid': lu(r, 1e-3, 6e-3), 'large': lu(r, 2e-2, 5e-2)}[st['band']]
                 m = fluid_masses(obj, yk, st, descr['fp_type'])
+                if descr['fp_type'] == 2 and (st['t_flash'] > 0.5 or (slow_budget <= 0 and st['t_flash'] > 0.06)):
+                    ctx.count('mixed-phase state skipped (flash slower than 60 ms)')
+                    continue
                 x = dict(m=[float(v) for v in m], T=st['T'], P=st['P'], Sa=st['Sa'], Ta=st['Ta'], status=st['status'])
             else:
                 obj, descr = gen_inert(r)
@@ -599,6 +680,8 @@ def run(ctx, lean_ok):
                                        'return_all': ra, 'individual': ind,
                                        'differing': [(fields[j], a, b) for j, a, b in diffs]})
     ctx.notes.append('%d of %d cases with differing tuples' % (nviol, len(cases)))
+    visc_row_check(ctx, cases)
+    library_contracts(ctx, cases, r)
     for k, lst in sorted(raises.items()):
         d, x, text = lst[0]
         ctx.notes.append('C20 finding candidate key=raises:%s (%d cases) first: %s on %r inputs %r' % (k, len(lst), text, d, x))
